@@ -443,6 +443,29 @@ fn c08_case(ctx: &Ctx, rep: &mut Report, rng: &mut Rng, version: Version, bufsiz
                 run_step(&mut sess, Step::HReadToEnd { slot: 0 }, done, rep)?;
             }
             let short = rng.below(long as u64 / 2 + 1);
+            if short > 0 && rng.chance(1, 3) {
+                // the handle's window is warm from a read near the start and its position
+                // lies inside what remains: shrink, grow, and read the gained bytes through
+                // it without the position ever having had to move
+                let head = 1 + rng.below(short) as usize;
+                run_step(&mut sess, Step::HSeek { slot: 0, from: SeekFrom::Start(0) }, done, rep)?;
+                run_step(&mut sess, Step::HReadExact { slot: 0, n: head }, done, rep)?;
+                run_step(&mut sess, Step::HSetLen { slot: 0, n: short }, done, rep)?;
+                let new = short + 1 + rng.below(long as u64);
+                former.push((p.to_string(), payload_history(&sess, p)));
+                run_step(&mut sess, Step::HSetLen { slot: 0, n: new }, done, rep)?;
+                if rng.chance(1, 2) {
+                    run_step(&mut sess, Step::HSeek { slot: 0, from: SeekFrom::Start(short) }, done, rep).map_err(|(s, d)| (format!("grow | warm window | {s}"), d))?;
+                    run_step(&mut sess, Step::HReadExact { slot: 0, n: (new - short) as usize }, done, rep).map_err(|(s, d)| (format!("grow | warm window | {s}"), d))?;
+                } else {
+                    // straight on from where the read stopped
+                    run_step(&mut sess, Step::HReadToEnd { slot: 0 }, done, rep).map_err(|(s, d)| (format!("grow | warm window | {s}"), d))?;
+                }
+                rep.count("grows_checked");
+                rep.count("grows_under_a_warm_window");
+                run_step(&mut sess, Step::HClose { slot: 0 }, done, rep)?;
+                continue;
+            }
             run_step(&mut sess, Step::HSetLen { slot: 0, n: short }, done, rep)?;
             run_step(&mut sess, Step::HSeek { slot: 0, from: SeekFrom::End(0) }, done, rep)?;
             run_step(&mut sess, Step::HWriteAll { slot: 0, len: 1 + rng.below(40) as usize }, done, rep)?;
